@@ -365,7 +365,10 @@ def run_check(pid, tier, seed):
     known = {}
     real = []
     for v in acc.viol:
-        cls = mod.classify(v["case"], v["clause"], v["sig"], v["detail"]) if hasattr(mod, "classify") else "-"
+        try:
+            cls = mod.classify(v["case"], v["clause"], v["sig"], v["detail"]) if hasattr(mod, "classify") else "-"
+        except Exception:
+            cls = "-"
         f = match_finding(findings, v["clause"], v["sig"], cls)
         if f is not None:
             k = f.get("key", "?")
